@@ -18,7 +18,7 @@ pub fn check(tier: Tier, seed: u64, replay: (Option<&str>, Option<&str>)) -> Vec
     if replay.0.is_none() {
         out.push(sweep(tier));
     }
-    out.extend(crate::run_parts!(tier, seed, replay, [FuncPart, PathPart]));
+    out.extend(crate::run_parts!(tier, seed, replay, [FuncPart, PathPart, super::c06w::WirePart]));
     out
 }
 
